@@ -15,7 +15,7 @@ FOCUS = {
     'reads': {'r_attr': 6, 'r_pk': 3, 'r_get': 4, 'r_exists': 2, 'r_select': 4, 'r_count': 3, 'r_aggr': 2, 'r_coll': 6,
               'r_todict': 2, 'flush': 1, 'r_getrel': 4, 'fail_probe': 3},
     'delete': {'del': 8, 'new': 8, 'rel': 5, 'add': 4, 'create_in': 4, 'bulk_del': 2, 'fail_probe': 9},
-    'keys': {'new': 9, 'set': 8, 'setmany': 4, 'del': 3, 'setpk': 2, 'r_proxy': 4, 'r_pk': 3},
+    'keys': {'new': 9, 'set': 8, 'setmany': 4, 'del': 3, 'setpk': 2, 'r_proxy': 4, 'r_pk': 3, 'proxy_reuse': 2},
     'fail': {'fail_probe': 8, 'new': 8, 'set': 6, 'setmany': 5, 'setmix': 6, 'rel': 6, 'del': 6, 'set_none': 2, 'setpk': 2, 'assign': 3, 'remove': 4},
     'rels': {'fail_probe': 3, 'setmix': 4, 'seq_probe': 6, 'rel': 8, 'add': 6, 'remove': 5, 'assign': 4, 'clear': 2, 'create_in': 4, 'r_attr': 4, 'r_coll': 4,
              'seq_in': 6},
